@@ -515,8 +515,15 @@ class Unit:
         if ks and self.models and self.models.is_model_type(ctg):
             self.emitted_globals[cn] = 'static %s;   /* global of a modelled type: contents abstract */' % txt.replace('const ', '')
         elif ks:
-            init = self.static_init(ks[0], qt)
-            self.emitted_globals[cn] = 'static %s = %s;' % (txt, init)
+            try:
+                init = self.static_init(ks[0], qt)
+                self.emitted_globals[cn] = 'static %s = %s;' % (txt, init)
+            except Unsupported:
+                if not ctg.startswith('struct ') or is_const: raise
+                # a mutable record global with a dynamic initialiser: declared without it.  goto-instrument --dfcc makes every mutable
+                # static nondeterministic at the start of the harness anyway; what the code relies on must be a precondition of the spec.
+                self.dropped.append('dynamic initialiser of global %s (contents: spec precondition)' % cn)
+                self.emitted_globals[cn] = 'static %s;' % txt
         else:
             self.emitted_globals[cn] = 'static %s;' % txt
         self.global_order.append(cn)
@@ -1705,7 +1712,12 @@ class Unit:
             elif '[' in txt and self.strip_tmp(ks[0])['kind'] == 'InitListExpr':
                 init = '{' + ', '.join(self.expr(x) for x in self.kids(self.strip_tmp(ks[0]))) + '}'
             else: init = self.expr(ks[0])
-            self.flush_expr_stmt('%s = %s;' % (txt, init), p)
+            if (self.pre or self.post) and '[' not in txt and not is_ref:
+                # the initialiser needs temporaries (printed in their own block): the variable itself is declared before that block
+                self.w(p + '%s;' % txt.replace('const ', ''))
+                self.flush_expr_stmt('%s = %s;' % (name, init), p)
+            else:
+                self.flush_expr_stmt('%s = %s;' % (txt, init), p)
             if self.stmt_may_throw:
                 self.stmt_may_throw = False
                 self.w(p + 'if (__exc != 0)'); self.w(p + '{'); self.emit_exc_exit(p + '  '); self.w(p + '}')
@@ -1886,7 +1898,7 @@ class Unit:
             self.emit_func(cid)
         # unresolved spec keys -> error (a renamed function / changed loop count must not silently drop a contract)
         for key in self.spec:
-            if key[0] in ('contract', 'loop', 'ghost', 'call_as', 'call_as_free') and key not in self.used_keys:
+            if key[0] in ('contract', 'loop', 'ghost') and key not in self.used_keys:      # (call_as routes are optional: a missing recursive call shows up as a failed postcondition)
                 if key[0] == 'contract' and key[1] not in self.emitted_protos:
                     if self.spec.get(('optional', key[1])): continue
                 raise Unsupported('spec key %r does not resolve in the extracted code' % (key,))
